@@ -63,6 +63,8 @@ func (o c12Op) String() string {
 		return fmt.Sprintf("Truncate(%d)", o.N)
 	case "stat":
 		return "Stat"
+	case "repoint":
+		return "<name re-pointed to a 9-byte file>"
 	case "close":
 		return "Close"
 	}
@@ -103,6 +105,11 @@ func c12Alphabet() []c12Op {
 	a = append(a, c12Op{Kind: "truncate", N: 1}, c12Op{Kind: "truncate", N: 8})
 	a = append(a, c12Op{Kind: "stat"})
 	a = append(a, c12Op{Kind: "close"})
+	// not a File method: the NAME the file was opened under is re-pointed to another file of a different
+	// size (replacement written next to it, then renamed over it). An open os.File is unaffected; the
+	// end-relative Seek and Stat of an open remote File must be, too. (Applied for the os-backed
+	// server only: the request server answers FSTAT by name by design.)
+	a = append(a, c12Op{Kind: "repoint"})
 	return a
 }
 
@@ -208,6 +215,13 @@ func c12Step(f fileAPI, op c12Op, step int) c12Obs {
 		}
 	case "close":
 		err = f.Close()
+	case "repoint":
+		if c12RepointPath != "" {
+			tmp := c12RepointPath + ".new"
+			if err = os.WriteFile(tmp, []byte("REPLACED!"), 0o644); err == nil {
+				err = os.Rename(tmp, c12RepointPath)
+			}
+		}
 	}
 	if o.Err == "" {
 		o.Err = c12Class(err)
@@ -223,7 +237,21 @@ func c12Step(f fileAPI, op c12Op, step int) c12Obs {
 }
 
 // c12Reference drives a real *os.File on a scratch file with the sequence.
+// c12RepointPath is the path a "repoint" step replaces ("" = the step is a no-op).
+var c12RepointPath string
+
+func c12HasRepoint(seq []c12Op) bool {
+	for _, o := range seq {
+		if o.Kind == "repoint" {
+			return true
+		}
+	}
+	return false
+}
+
 func c12Reference(path string, seq []c12Op) (obs []c12Obs, final []byte, err error) {
+	c12RepointPath = path
+	defer func() { c12RepointPath = "" }()
 	if err := os.WriteFile(path, []byte(c12Init), 0o644); err != nil {
 		return nil, nil, err
 	}
@@ -347,6 +375,10 @@ func c12Run(e *c01Env, seq []c12Op, ref []c12Obs, refFinal []byte, out func(stri
 }
 
 func c12Run1(e *c01Env, seq []c12Op, ref []c12Obs, refFinal []byte, out func(string)) (steps int64, posBads []*c12Bad, bad *c12Bad) {
+	if e.cfg.Server == "os" {
+		c12RepointPath = e.path
+		defer func() { c12RepointPath = "" }()
+	}
 	if err := e.setContent([]byte(c12Init)); err != nil {
 		return 0, nil, &c12Bad{"harness", "", err.Error()}
 	}
@@ -362,6 +394,10 @@ func c12Run1(e *c01Env, seq []c12Op, ref []c12Obs, refFinal []byte, out func(str
 		return &c12Bad{check, seq[s].Kind, fmt.Sprintf("step %d %v: ", s, seq[s]) + fmt.Sprintf(format, a...)}
 	}
 	for s, op := range seq {
+		if op.Kind == "repoint" && (closed || ref[s].Err == "closed") {
+			steps++ // not a File method: nothing to observe after Close
+			continue
+		}
 		o := c12Step(f, op, s)
 		w := ref[s]
 		steps++
@@ -590,6 +626,9 @@ func c12Part(c *reg.Ctx) *reg.Result {
 			res.Sample(map[string]any{"sequence": c12SeqString(seq)})
 		}
 		for ci, e := range envs {
+			if cfgs[ci].Server != "os" && c12HasRepoint(seq) {
+				continue // see the alphabet: by-name FSTAT is the request server's design
+			}
 			tick(fmt.Sprintf("%v {%s}", cfgs[ci], c12SeqString(seq)))
 			n, bads := c12Run(e, seq, ref, final, res.Outcome)
 			res.Evaluations += n
@@ -625,7 +664,7 @@ func init() {
 var c12Prop = &reg.Property{
 	ID:    "C12",
 	Level: "model_checking",
-	Rule: "all sequences of File method calls of the stated depth over a 40-symbol alphabet {Read 1|3|5, Write 1|3|5, ReadAt(3,@1)|(5,@3), WriteAt(3,@1)|(5,@4), Seek(off in {-6,-1,0,1,6}, whence in {0,1,2,3}), ReadFrom(opaque|Len source of 1|5 bytes), ReadFromWithConcurrency(opaque 5 bytes, 2) [reference: os.File.ReadFrom], WriteTo, Truncate 1|8, Stat, Close} " +
+	Rule: "all sequences of File method calls of the stated depth over a 41-symbol alphabet {Read 1|3|5, Write 1|3|5, ReadAt(3,@1)|(5,@3), WriteAt(3,@1)|(5,@4), Seek(off in {-6,-1,0,1,6}, whence in {0,1,2,3}), ReadFrom(opaque|Len source of 1|5 bytes), ReadFromWithConcurrency(opaque 5 bytes, 2) [reference: os.File.ReadFrom], WriteTo, Truncate 1|8, Stat, Close, plus the environment step 'the name is re-pointed to another file' (os-backed server only)} " +
 		"on a 5-byte file with MaxPacket=2, MaxConcurrentRequestsPerFile=2, x UseConcurrentReads x UseConcurrentWrites x UseFstat x {RequestServer over a byte-slice handler with OpenFile, os-backed Server}; the same sequence drives a real *os.File; after every step count, data, error class and Seek(0,io.SeekCurrent) are compared; " +
 		"after the sequence: file content, every method returns os.ErrClosed after Close, exactly one CLOSE for the handle in the tapped client->server bytes and nothing carrying the handle after it; states = sequences, transitions = steps x configurations, distinct non-trivial = sequences in which the offset leaves 0",
 	Assumptions: []string{
